@@ -432,3 +432,54 @@ Theorem C06_form_prepared_twice_sentinel_refuted :
   /\ decode_form f_tag0_wire = pairs_of f_tag0.
 Proof. exact form_prepared_twice_sentinel_refuted. Qed.
 Print Assumptions C06_form_prepared_twice_sentinel_refuted.
+
+(* ---- the examples and coverage phases have no validity filter (section 16; after seed C06_g) *)
+(* a matrix-style primitive path parameter: EVERY non-null value - 0, False and the empty string included - is written
+   ;name=<str(value)> by all three phases, and the segment of every phase is read back by the matrix decoder *)
+Theorem C06_matrix_primitive_all_phases_partial : forall name e p, p <> PNone ->
+  let d := def_path_prim name StMatrix e in
+  let it := [(name, VPrim p)] in
+  let s := 59 :: name ++ [61] ++ py_str p in
+  (path_text name (phase_path PhExamples [d] it) = Some s /\ dec_value FMatrixPrim name s = Some (CPrim (py_str p)) /\ is_nil s = false)
+  /\ (forall seg, path_text name (phase_path PhCoverage [d] it) = Some seg -> read_segment (Some FMatrixPrim) name seg = Some (CPrim (py_str p)))
+  /\ (forall seg, path_text name (phase_path PhFuzz [d] it) = Some seg -> read_segment (Some FMatrixPrim) name seg = Some (CPrim (py_str p))).
+Proof. exact matrix_primitive_all_phases. Qed.
+Print Assumptions C06_matrix_primitive_all_phases_partial.
+
+(* finding C06-F4, corrected: the empty text of a falsy label primitive is dropped by the fuzzing phase only *)
+Theorem C06_label_falsy_reaches_the_wire_refuted :
+  let d := def_path_prim s_id StLabel None in
+  (forall p, In p [PInt 0; PBool false; PStr []] ->
+     phase_path PhFuzz [d] (it_of p) = GFiltered
+     /\ phase_path PhExamples [d] (it_of p) = GOk [(s_id, sval [])]
+     /\ phase_path PhCoverage [d] (it_of p) = GOk [(s_id, sval [])])
+  /\ read_segment (Some FLabelPrim) s_id [] = None
+  /\ phase_path PhCoverage [d] (it_of (PInt 7)) = GOk [(s_id, sval [46;55])].
+Proof. exact label_falsy_reaches_the_wire. Qed.
+Print Assumptions C06_label_falsy_reaches_the_wire_refuted.
+
+(* sentinel for seed C06_g: under the truth test a falsy matrix primitive becomes the empty text, which no matrix decoder reads,
+   which is_valid_path drops (fuzzing phase) and which quote_all / _stringify_value pass on (coverage phase); truthy values
+   cannot tell the two rules apart *)
+Theorem C06_matrix_truthiness_sentinel_refuted :
+  (forall name v, truthy v = true -> matrix_prim_truthy name v = new_value FMatrixPrim name v)
+  /\ (forall p, In p [PInt 0; PBool false; PStr []] ->
+       matrix_prim_truthy s_id (VPrim p) = Some []
+       /\ new_value FMatrixPrim s_id (VPrim p) = Some (59 :: s_id ++ [61] ++ py_str p))
+  /\ dec_value FMatrixPrim s_id [] = None
+  /\ is_valid_path [(s_id, sval [])] = false
+  /\ omap stringify_item (quote_all [(s_id, sval [])]) = Some [(s_id, sval [])].
+Proof. exact matrix_truthiness_sentinel_refuted. Qed.
+Print Assumptions C06_matrix_truthiness_sentinel_refuted.
+
+(* finding C06-F15: the empty string of a path parameter without a style serializer is sent as an EMPTY segment by the examples and
+   coverage phases (the fuzzing phase drops it); 0 is sent as "0" *)
+Theorem C06_empty_path_value_refuted :
+  forall st, In st [StNone; StSimple] ->
+    let d := def_path_prim s_id st None in
+    phase_path PhFuzz [d] (it_of (PStr [])) = GFiltered
+    /\ path_text s_id (phase_path PhExamples [d] (it_of (PStr []))) = Some []
+    /\ path_text s_id (phase_path PhCoverage [d] (it_of (PStr []))) = Some []
+    /\ path_text s_id (phase_path PhCoverage [d] (it_of (PInt 0))) = Some [48].
+Proof. exact empty_path_value_refuted. Qed.
+Print Assumptions C06_empty_path_value_refuted.
